@@ -38,20 +38,40 @@ def run(tier, seed):
                "the returned ray (Snell invariant across interfaces, monotone depth, tt = Σ len/v, length = Σ len = Σ per-layer); 1e-9; "
                "non-trivial = ray crossing >= 2 interfaces before the receiver line")
     reqs, metas = [], []
-    for _ in range(1600 if thorough else 420):
-        n = rnd.choice([1, 2, 3, 4, 5, 8])
-        thick = [rnd.choice([50.0, 100.0, 200.0, rnd.uniform(20, 300)]) for _ in range(n)]
-        inter = np.cumsum(thick)
+    for _ in range(2400 if thorough else 900):
+        n = rnd.choice([1, 2, 3, 4, 5, 8, 12])
+        # interface depths: round numbers, arbitrary doubles, and one-decimal values (whose differences are not exactly representable)
+        style = rnd.choice(["mixed", "mixed", "decimal", "hazard"])
+        if style == "hazard":
+            # consecutive depths a < b for which a + (b - a) does not round back to b: code that recomputes an interface depth from a
+            # thickness lands next to the interface instead of on it
+            depths = [round(rnd.uniform(5, 60), 1)]
+            while len(depths) < n:
+                a = depths[-1]
+                for _try in range(3000):
+                    b = round(a + rnd.uniform(10, 200), 1)
+                    if a + (b - a) != b:
+                        break
+                depths.append(b)
+            inter = np.array(depths)
+            style = "hazard-done"
+        if style == "mixed":
+            thick = [rnd.choice([50.0, 100.0, 200.0, rnd.uniform(20, 300)]) for _ in range(n)]
+            inter = np.cumsum(thick)
+        elif style == "decimal":
+            inter = np.array(sorted({round(rnd.uniform(5, 400 * n / 3 + 50), 1) for _ in range(n)}))
+            n = len(inter)
         vel = np.array([rnd.choice([1500.0, 2000.0, 3000.0, rnd.uniform(800, 5000)]) for _ in range(n)])
         if rnd.random() < 0.3:
             vel = np.ones(n) * vel[0]
         xr = rnd.choice([50.0, 150.0, 400.0, rnd.uniform(10, 800)])
         ang = rnd.choice([rnd.uniform(0.5, 89.5), rnd.uniform(20, 70), rnd.uniform(1, 15)])
         # the same model written down with whole numbers in integer arrays, float32 arrays or plain lists is the same model
-        encoding = rnd.choice(["float64", "float64", "float64", "int", "float32", "list"])
+        encoding = "float64" if style == "hazard-done" else rnd.choice(["float64", "float64", "float64", "int", "float32", "list"])
         if encoding != "float64":
-            inter = np.round(inter)
-            vel = np.round(vel)
+            inter = np.unique(np.round(inter))
+            n = len(inter)
+            vel = np.round(vel[:n])
         rz = np.array([inter[-1] * 0.5])
         inter_arg, vel_arg = {"float64": (inter, vel), "int": (inter.astype(np.int64), vel.astype(np.int64)), "float32": (inter.astype(np.float32), vel.astype(np.float32)),
                               "list": (np.array(inter.tolist()), np.array([int(v) for v in vel]))}[encoding]
@@ -73,6 +93,20 @@ def run(tier, seed):
         st.count("reported" if tt is not None else "not-reported")
         # the property's own oracles on the returned ray --------------------------------------
         problems = []
+        if tt is not None and rnd.random() < 0.4:
+            # the same ray through the bookkeeping used by distance_per_layer() / gradient(): per-layer lengths and travel time must be the ray's
+            try:
+                with quiet(), np.errstate(all="ignore"):
+                    TTS, DTS = M._derivative_to_layer_speeds(vel_arg, inter_arg, xr, rz, np.array([ang]), parallel=False)
+                st.count("also through _derivative_to_layer_speeds")
+                row = np.asarray(DTS, dtype=float)[0]
+                if not (common.close(float(np.asarray(TTS, dtype=float)[0]), tt, 1e-9, 1e-15) and common.vclose(row.tolist(), np.asarray(per, dtype=float), 1e-9, 1e-9)):
+                    problems.append(f"_derivative_to_layer_speeds returns travel time {float(np.asarray(TTS, dtype=float)[0])!r} / per-layer lengths {row.tolist()} for a ray with "
+                                    f"travel time {tt!r} / per-layer lengths {np.asarray(per, dtype=float).tolist()}")
+                elif not (common.close(float(np.sum(row / vel)), tt, 1e-9, 1e-15) and common.close(float(np.sum(row)), dist, 1e-9, 1e-12)):
+                    problems.append("per-layer lengths from _derivative_to_layer_speeds do not add up to the ray's travel time and length")
+            except Exception as e:
+                problems.append(f"_derivative_to_layer_speeds raised {e!r}")
         if tt is not None:
             segs = list(zip(pts[:-1], pts[1:]))
             lens, ps = [], []
